@@ -172,7 +172,8 @@ fn c11_batches(tier: &str) -> Vec<Batch> {
     wake.name = "c11-wake".into();
     wake.next_delays_s = vec![36000, 72000];
     wake.policy.timing_kind = [1, 1, 0];
-    wake.policy.min_wait_permille = 0;
+    // minimum waits of up to two hours: a request must cut them short as well
+    wake.policy.min_wait_permille = 500;
     wake.lazy_consumer_permille = 0;
     wake.lateness = [1, 0, 0, 0];
     wake.latency = [5, 5, 0];
@@ -577,6 +578,9 @@ pub fn c08_profile() -> Profile {
     p.wall_init = [6, 1, 1, 2];
     p.disk.slow = 150;
     p.neighbour_permille = 150;
+    // wall-clock steps while running (forwards and backwards; the extreme classes stay in wall_init)
+    p.clock_jump_permille = 300;
+    p.clock_classes = [2, 3, 0, 1, 0];
     p
 }
 
